@@ -430,7 +430,7 @@ func (req *SrvReq) Respond() {
 			if p == nil {
 				nextreq.flushreq = req.flushreq
 			} else {
-				nextreq = req.flushreq
+				p.flushnext = req.flushreq
 			}
 		}
 
